@@ -39,11 +39,12 @@ CHECKS += [
       text="proved (dense variant + disjoint-set functions): memory safety incl. realloc, forest invariant, labels==0 <=> data<=threshold, labels in 0..n; "
            "bounded: partition equality of dense/sparse/splat vs BFS on all small masks, chains and random frames",
       note=PROOF_NOTE + "; partition equality only bounded", technique="function contracts + loop invariants (z3) and exhaustive small-image comparison"),
- dict(id="C19", engine="symtrace", category="proof", design_ref="DESIGN.md section 5 C19",
-      text="all lab/sample/step/recon conversions proved mutually inverse for symbolic arguments, in-beam dty makes lab y zero, sincos variants, "
-           "dty<->dtyi round trip, mask helpers are the stated compositions. The reconstruction clauses are not claimed (see assumptions)",
-      note="sin^2+cos^2=1; ystep != 0; iradon accuracy/linearity/worker independence not applicable",
-      technique="symbolic execution of the real functions; identities discharged by z3"),
+ dict(id="C19", engine="symtrace", category="other", design_ref="DESIGN.md section 5 C19",
+      text="proved: all lab/sample/step/recon conversions mutually inverse for symbolic arguments, in-beam dty makes lab y zero, sincos variants, "
+           "dty<->dtyi round trip, mask helpers are the stated compositions. Bounded: iradon worker-count / ROI-mask independence and linearity on random "
+           "sinograms, point grains reconstruct within 1.5 px of the predicted coordinate",
+      note="sin^2+cos^2=1; ystep != 0; the reconstruction clauses rest on the bounded stand-in only (FFT, interpolation, threads are outside the engines)",
+      technique="symbolic execution of the real functions, identities discharged by z3; run-time contracts on the real iradon over a stated grid"),
  dict(id="C20", engine="cfront+csym", category="proof", design_ref="DESIGN.md section 5 C20",
       text="all functions of closest.c, cdiffraction.c, blobs.c and connectedpixels.c (except bloboverlaps) verified in safety mode: bounds, "
            "use-after-free, double free, leaks, signed overflow, division by zero, float-to-int range, uninitialised reads, output definedness, "
